@@ -66,7 +66,11 @@ class Desc:
             # SCMs are described symbolically, from the model (not from Bob's digest script)
             r = body_of(self.model, pkg)
             if r["body"].get("import"):
-                script += "\n#import src/%s -> imp, prune" % r["name"]
+                script += "\n#import src/%s -> imp, prune=%s" % (r["name"], bool(r["body"].get("importPrune", True)))
+            if r["body"].get("urlfile"):
+                import hashlib
+                data = (self.model.get("files") or {}).get(r["name"] + "/u.txt", "").encode()
+                script += "\n#url sha1 %s -> url/u.txt" % hashlib.sha1(data).hexdigest()
         env = sorted((k, v) for k, v in step.getEnv().items() if k not in scripts.WEAKVARS)
         # weakly used tools take part in the Variant-Id like strong ones (only the Build-Id relaxes them)
         tools = sorted((n, self.of(t.getStep()), t.getPath(), list(t.getLibs()))
